@@ -28,7 +28,7 @@ structure PrimsOK (pr : Prims) : Prop where
   ripemd160_len : ∀ b, (pr.ripemd160 b).length = 20
   hmac256_len : ∀ k m, (pr.hmac256 k m).length = 32
   hmac512_len : ∀ k m, (pr.hmac512 k m).length = 64
-  cbc_len : ∀ k iv d, (pr.cbcEnc k iv d).length = d.length
+  cbc_len : ∀ k iv d, d.length % 16 = 0 → (pr.cbcEnc k iv d).length = d.length   -- whole blocks only (CryptBlocks)
   cbc_inv : ∀ k iv d, k.length = 32 → iv.length = 16 → d.length % 16 = 0 → pr.cbcDec k iv (pr.cbcEnc k iv d) = d
   cfb_inv : ∀ k iv d, pr.cfbDec k iv (pr.cfbEnc k iv d) = d
   cfb_len : ∀ k iv d, (pr.cfbEnc k iv d).length = d.length
